@@ -541,3 +541,8 @@ def str_path_comparisons(repo):
                     if a and b and a != b:
                         out.append((f, q, c, a, b))
     return out, sa
+
+
+def effective_body(func):
+    """statements of a function body that do something: docstrings / bare constants and `pass` are dropped"""
+    return [s for s in func.body if not isinstance(s, ast.Pass) and not (isinstance(s, ast.Expr) and isinstance(s.value, ast.Constant))]
